@@ -25,6 +25,7 @@ import (
 type Stats struct {
 	MemComp, L0Comp, NonL0Comp, SeekComp int
 	Reopens, Compacts, Snaps, Iters      int
+	Recovers                             int
 	Moves, Reversals, Seeks              int
 	MaxLevels, DeepestLevel              int
 	LargeBatch, TrCommits, TrDiscards    int
@@ -104,16 +105,30 @@ func NewEnv(c *Case) *Env {
 	e := &Env{C: c, FS: vfs.New(), M: model.NewMap(), tcache: map[int64]*tableSummary{}}
 	e.O = c.Opts.Build(c.Cmp)
 	e.Cmp = e.O.Comparer
-	if c.SlowFlush {
-		// keep the frozen buffer around for a while: reads then hit it
-		e.FS.Hook = func(kind string, fd storage.FileDesc) {
-			if kind == vfs.OpCreate && fd.Type == storage.TypeTable {
-				time.Sleep(150 * time.Microsecond)
-			}
-		}
-	}
+	e.installHooks()
 	e.St.TreeClasses = map[string]int{}
 	return e
+}
+
+func (e *Env) installHooks() {
+	c := e.C
+	if !c.SlowFlush && !c.SlowRemove {
+		return
+	}
+	e.FS.Hook = func(kind string, fd storage.FileDesc) {
+		if fd.Type != storage.TypeTable {
+			return
+		}
+		// SlowFlush keeps the frozen buffer around for a while: reads then hit it.
+		// SlowRemove stretches the removal of obsolete tables, so that whatever
+		// follows the release of a version (Close in particular) overlaps it.
+		if kind == vfs.OpCreate && c.SlowFlush {
+			time.Sleep(150 * time.Microsecond)
+		}
+		if kind == vfs.OpRemove && c.SlowRemove {
+			time.Sleep(300 * time.Microsecond)
+		}
+	}
 }
 
 func (e *Env) key(i int) []byte {
@@ -594,9 +609,27 @@ func (e *Env) Step(i int, op *Op) error {
 		if wb > 2048 {
 			wb = 2048
 		}
+		// op.S = number of adjacent keys cycled through (default 3), op.V.Len = puts per
+		// buffer (default 1): with 2 or 3 puts per buffer the flushed tables cover short
+		// runs of adjacent keys, which chain into transitive overlaps in level 0
+		stride, parts := 3, 1
+		if op.S != nil && *op.S > 0 {
+			stride = *op.S
+		}
+		if op.V.Len > 1 {
+			parts = op.V.Len
+		}
 		for j := 0; j < n; j++ {
-			k := e.key(op.K + j%3)
-			v := gen.VSpec{Len: wb, Fill: j % 2}.Bytes(e.tag(j))
+			k := e.key(op.K + j%stride)
+			vl := wb / parts
+			if parts > 1 {
+				// leave room for the key, the tag and the per-record overhead so that
+				// `parts` puts really share one buffer
+				if vl -= len(k) + 48; vl < 0 {
+					vl = 0
+				}
+			}
+			v := gen.VSpec{Len: vl, Fill: j % 2}.Bytes(e.tag(j))
 			if err := e.DB.Put(append([]byte{}, k...), v, nil); err != nil {
 				return e.fail("churn put #%d: unexpected error %v", j, err)
 			}
@@ -660,6 +693,23 @@ func (e *Env) Step(i int, op *Op) error {
 			return err
 		}
 		e.St.Reopens++
+		return e.Sweep()
+
+	case "recover":
+		// settled shutdown, then rebuild the DB from its table and journal files
+		if e.Tr != nil {
+			return nil
+		}
+		if err := e.idle(true); err != nil {
+			return err
+		}
+		if err := e.Close(); err != nil {
+			return err
+		}
+		if err := e.OpenWith("Recover", func() (*leveldb.DB, error) { return leveldb.Recover(e.FS, e.O) }); err != nil {
+			return err
+		}
+		e.St.Recovers++
 		return e.Sweep()
 
 	case "idle":
@@ -1064,6 +1114,7 @@ func (e *Env) Finish() error {
 // Run executes a case; it returns the statistics and the first violation.
 func Run(c *Case) (st *Stats, err error) {
 	e := NewEnv(c)
+	LastEnv = e
 	defer func() {
 		if x := recover(); x != nil {
 			err = e.fail("panic in the calling goroutine: %v\n%s", x, debug.Stack())
@@ -1087,6 +1138,9 @@ func Run(c *Case) (st *Stats, err error) {
 	err = e.Finish()
 	return
 }
+
+// LastEnv is the executor of the most recent Run (debugging aid).
+var LastEnv *Env
 
 var _ = errors.New
 var _ = storage.TypeAll
@@ -1152,5 +1206,6 @@ func NewEnvOn(c *Case, fs *vfs.FS, m *model.Map) *Env {
 	e := NewEnv(c)
 	e.FS = fs
 	e.M = m
+	e.installHooks()
 	return e
 }
